@@ -160,6 +160,8 @@ def write_md(matrix):
             cells.append(f"{k}: {v['exit']}")
             if v['exit'] == 1 and not first:
                 first = v['first']
+        if meta.get('cross'):
+            cells.append('NOTE: ' + meta['cross'][:220])
         if meta.get('not_demanded'):
             cells.append('NOT DEMANDED BY THE PROPERTY: ' + meta['not_demanded'][:200])
         needs = (meta.get('needs') or '')[:160].replace('|', '/').replace('\n', ' ')
